@@ -126,9 +126,10 @@ def observe_case(root: Path, case: Dict[str, Any]) -> Dict[str, Any]:
     # only the names ariadne-codegen itself promises to escape (PYDANTIC_RESERVED_FIELD_NAMES) are judged; other shadowed
     # attributes (a field called `mro`) are recorded as an observation
     try:
-        from ariadne_codegen.client_generators.constants import PYDANTIC_RESERVED_FIELD_NAMES as _reserved
-    except (ImportError, AttributeError):
-        _reserved = ()
+        from ariadne_codegen.utils import PYDANTIC_RESERVED_FIELD_NAMES as _reserved
+    except (ImportError, AttributeError):  # the constant moved: the pinned list
+        _reserved = ("construct", "copy", "dict", "from_orm", "json", "model_config", "model_construct", "model_copy", "model_dump", "model_dump_json",
+                     "model_fields", "model_validate", "parse_obj", "parse_raw", "schema", "schema_json", "update_forward_refs", "validate")
     shadows = sorted({str(w.message)[:160] for w in caught if "shadows an attribute in parent" in str(w.message)})
     out["shadow_warnings"] = [m for m in shadows if any(f'Field name "{n}"' in m for n in _reserved)]
     out["other_shadow_warnings"] = [m for m in shadows if m not in out["shadow_warnings"]]
